@@ -28,7 +28,7 @@ ASSUMPTIONS = ['rounded styles start at interior width 1 (two corner glyphs with
                'a side consisting of one single : or ! is punctuation by design and is left out of the completeness family',
                'hook invariant compares point sets: how many pieces are merged before endorsing is not constrained']
 FLOORS = {'quick': {'completeness_boxes': 1500, 'endorse_events': 2000, 'gap_inputs': 500},
-          'thorough': {'completeness_boxes': 60000, 'endorse_events': 100000, 'gap_inputs': 20000}}
+          'thorough': {'completeness_boxes': 40000, 'endorse_events': 100000, 'gap_inputs': 20000}}
 
 DASHED = set('~:!┄┊┆╎')
 HZ_ASCII = ['-', '~']
